@@ -251,7 +251,15 @@ std::string do_run(const std::string& rest) {
   c03::start_thread(s, r0, [&hist, d, L]() { run_history(hist, d, L, nullptr); });
 
   Controller c(s);
-  const long kLimit = 200000 + 4 * (long)sched.size();
+  // step budget of the completion phase, from the proved ranking bounds (Props/C03: dispatch_step_bound,
+  // threadpool_step_bound): a dispatch of n tasks on N workers has at most 3n+5N+7 non-spin steps, a
+  // mju_threadpool(k) on N workers at most 6N+2k+3; every round-robin pass contains a non-spin step.
+  long rank_sum = 0, ncur = 0;
+  for (const Op& op : hist) {
+    if (op.kind == 'd') rank_sum += 3L * op.arg + 5 * ncur + 7;
+    else { rank_sum += 6 * ncur + 2L * op.arg + 3; ncur = op.arg; }
+  }
+  const long kLimit = (long)sched.size() + 4 * (maxk + 1) * (rank_sum + 16) + 1000;
   std::string verdict;
   for (int t : sched) {
     if (c.main_done()) break;
